@@ -21,6 +21,7 @@ const pkgStrategies = "pkg/scheduler/plugins/proportion/reclaimable/strategies"
 
 func runC07(c *Ctx) {
 	runC07Kinds(c)
+	runC07MultiplierReachesValidator(c)
 	borrow(c, "O8", "C08", "O13", "usage is accumulated for the allocated statuses", "the queue shares that reclaim reasons about start from the pods that HOLD resources: counting terminating pods makes a queue at its deserved quota look over quota and lets reclaim take more from it")
 	borrow(c, "O10", "C08", "O6", "scaled by 10^6", "a deserved memory quota scaled by 2^20 instead of 10^6 is 4.86% larger than configured: a non-preemptible reclaimer is admitted above its real quota and another queue's workload is evicted for it")
 	borrow(c, "O9", "C12", "O2", "AllocatedStatus(Binding)", "a pod whose bind is in flight holds its resources: if Binding is not an allocated status the reclaimer's queue looks smaller than it is at session open and reclaims past its fair share")
@@ -625,4 +626,33 @@ func runC07Kinds(c *Ctx) {
 		}
 	}
 	c.Floor("O7", "SIBLING resource-kind ties", n, 3)
+}
+
+// runC07MultiplierReachesValidator (O11): the saturation multiplier that New clamps to ≥ 1 (O5) is the value the reclaim
+// validator runs with: the argument of reclaimable.New in OnSessionOpen is that field, not a neighbouring float of the
+// plugin (kValue has the same type and the same default).
+func runC07MultiplierReachesValidator(c *Ctx) {
+	p := c.P
+	f := c.Anchor("O11", pkgProportion, "proportionPlugin", "OnSessionOpen")
+	ctor := p.Func(pkgProportion+"/reclaimable", "", "New")
+	if f == nil || ctor == nil {
+		return
+	}
+	fld := p.fieldVars(pkgProportion, "proportionPlugin", "relcaimerSaturationMultiplier")
+	n := 0
+	for _, h := range p.deepFind(f, isCallToFn(ctor), 1) {
+		n++
+		args := h.In.(ssa.CallInstruction).Common().Args
+		ok := false
+		if len(args) == 1 {
+			if u, isU := args[0].(*ssa.UnOp); isU {
+				if fa, isFA := u.X.(*ssa.FieldAddr); isFA && fld[fieldOfAddr(fa)] {
+					ok = true
+				}
+			}
+		}
+		c.Check(ok, "O11", "PROV", funcKey(h.In.Parent())+": the reclaim validator is built with the plugin's saturation multiplier", instrPos(h.In), "reclaimable.New(pp.relcaimerSaturationMultiplier)",
+			"the reclaim validator is built with another value than the clamped saturation multiplier ("+trunc(termOf(args[0]).String(), 60)+"): the configured boundary never reaches the saturation test, a reclaimer's ancestor can end above its fair share and at least as saturated as the sibling it took from")
+	}
+	c.Floor("O11", "PROV constructions of the reclaim validator", n, 1)
 }
